@@ -7,9 +7,14 @@
 (*                enabled calls up to MaxDepth steps.                          *)
 (*  Mode "random": one behaviour per seed: the call and its arguments are     *)
 (*                taken from a pseudo random sequence (a function of the seed) *)
+(*  Mode "script": like "free", but step d may only be a call of a kind in    *)
+(*                Script[d] (Browse / Next / Modify): reaches deep scenarios    *)
+(*                such as Browse, change, Browse, BrowseNext on the OLDER point *)
 (* Every behaviour ends with a Probe step.                                     *)
 EXTENDS Browse
-CONSTANTS Mode, MaxDepth, Warm, KidConfigs, Nodes, Dirs, Filts, Masks, Pages, ModKinds, RefTypes, NextCps, Seeds
+CONSTANTS Mode, MaxDepth, Warm, KidConfigs, Nodes, Dirs, Filts, Masks, Pages, ModKinds, RefTypes, NextCps, Seeds,
+          Script,    \* Mode "script": sequence of sets of call kinds, one per step (MaxDepth = Len(Script))
+          Rels       \* the release flags BrowseNext is tried with
 VARIABLES depth, phase, cfg, rnd
 dvars == <<depth, phase, cfg, rnd>>
 
@@ -25,7 +30,7 @@ DInit == /\ cfg \in KidConfigs
 AnyBrowse == \E nd \in Nodes, d \in Dirs, f \in Filts, m \in Masks, p \in Pages : Browse(nd, d, f, m, p)
 \* continuation point numbers worth trying: 0 = never issued, everything issued so far (live, used, released, outdated)
 CpChoice == IF -1 \in NextCps THEN 0..(nextCp - 1) ELSE {c \in NextCps : c < nextCp}       \* NextCps = {-1}: all of them
-AnyNext == \E c \in CpChoice, r \in BOOLEAN : BrowseNext(c, r)
+AnyNext == \E c \in CpChoice, r \in Rels : BrowseNext(c, r)
 Kids == nodes \ {0}
 AnyModify ==
   \/ "AddNode" \in ModKinds /\ \E t \in RefTypes : AddNode(0, t)
@@ -66,6 +71,8 @@ DNext ==
           /\ IF depth < Warm THEN Browse(0, "Both", "none", "All", 1)
              ELSE IF Mode = "chain" THEN (IF depth = 0 THEN AnyBrowse ELSE BrowseNext(cps[Len(cps)].id, FALSE))
              ELSE IF Mode = "random" THEN RandomStep
+             ELSE IF Mode = "script" THEN LET ks == Script[depth + 1]
+                                          IN ("Browse" \in ks /\ AnyBrowse) \/ ("Next" \in ks /\ AnyNext) \/ ("Modify" \in ks /\ AnyModify)
              ELSE AnyBrowse \/ AnyNext \/ AnyModify
 Done == phase = "done"
 =============================================================================
